@@ -98,15 +98,21 @@ def run(module, cfg, wd=None, workers=1, simulate=None, depth=None, seed=None, e
     if env:
         e.update({k: str(v) for k, v in env.items()})
     t0 = time.time()
-    try:
-        p = subprocess.run(cmd, cwd=wd, env=e, stdout=subprocess.PIPE, stderr=subprocess.STDOUT,
-                           timeout=timeout, text=True)
-        out, rc = p.stdout, p.returncode
-    except subprocess.TimeoutExpired as ex:
-        out = (ex.stdout or "")
-        if isinstance(out, bytes):
-            out = out.decode("utf8", "replace")
-        rc = 124
+    for attempt in (1, 2, 3):
+        try:
+            p = subprocess.run(cmd, cwd=wd, env=e, stdout=subprocess.PIPE, stderr=subprocess.STDOUT,
+                               timeout=timeout, text=True)
+            out, rc = p.stdout, p.returncode
+        except subprocess.TimeoutExpired as ex:
+            out = (ex.stdout or "")
+            if isinstance(out, bytes):
+                out = out.decode("utf8", "replace")
+            rc = 124
+        # a JVM killed from outside (signal) says nothing about the specification: run it again
+        if rc < 0 or rc in (129, 130, 137, 143):
+            shutil.rmtree(os.path.join(wd, "states"), ignore_errors=True)
+            continue
+        break
     wall = time.time() - t0
     res = {"out": out, "rc": rc, "wall": wall, "wd": wd}
     if own and not keep:
